@@ -63,6 +63,20 @@ def make_functions():
     return {'f1': f1, 'f2': f2, 'f3': f3, 'f4': f4}
 
 
+def make_f5():
+    """a method whose error class does not exist before this is called (plan "grow": defined between two generations)"""
+    class E2003(exceptions.JsonRpcError):
+        code = 2003
+        message = 'third error'
+
+    def f5():
+        """Fifth.
+
+        :raises E2003: late
+        """
+    return f5
+
+
 def extractor(name):
     return {'base': [], 'pyd': [pex.PydanticSchemaExtractor()], 'doc': [dex.DocstringSchemaExtractor()],
             'doc+pyd': [dex.DocstringSchemaExtractor(), pex.PydanticSchemaExtractor()]}[name]
@@ -160,7 +174,7 @@ def success_result_schema(doc, op):
 
 
 BY_EXPOSED = {}
-DOC_PREFIX = {'f1': 'Does the first thing', 'f3': 'Third'}
+DOC_PREFIX = {'f1': 'Does the first thing', 'f3': 'Third', 'f5': 'Fifth'}
 
 
 def marker_of(m):
@@ -307,8 +321,10 @@ def run(scn_wrap, docs_out):
     shared_errs = [openrpc.Error(code=2001, message='first error')] if is_rpc else [E2001]
     user_objs = []
     methods_map = {'': [], '/api': []}
-    for j, m in enumerate(scn['methods']):
-        f = make_functions()[m['fn']]        # a fresh function object per registered method
+    order = []      # registration order = scenario order
+
+    def build_method(m):
+        f = make_f5() if m['fn'] == 'f5' else make_functions()[m['fn']]        # a fresh function object per registered method
         kw = {}
         if m['errs'] == 'shared':
             kw['errors'] = shared_errs
@@ -328,7 +344,17 @@ def run(scn_wrap, docs_out):
         if kw:
             f = (openrpc.annotate(**kw) if is_rpc else openapi.annotate(**kw))(f)
         user_objs.append({'errors': kw.get('errors'), 'tags': kw.get('tags'), 'meta': getattr(f, '__pjrpc_meta__', None)})
-        methods_map['' if m['ep'] == 'root' else '/api'].append(Method(f, m['fn'] if m['name'] == 'own' else m['name'], context='ctx' if m['fn'] == 'f3' else None))
+        key = '' if m['ep'] == 'root' else '/api'
+        meth = Method(f, m['fn'] if m['name'] == 'own' else m['name'], context='ctx' if m['fn'] == 'f3' else None)
+        methods_map[key].append(meth)
+        order.append((key, meth))
+
+    deferred = None
+    for j, m in enumerate(scn['methods']):
+        if scn.get('plan') == 'grow' and j == len(scn['methods']) - 1:
+            deferred = m        # this method (and the error class it raises) comes into being after the first generation
+        else:
+            build_method(m)
     def build_spec():
         ex = extractor(scn['extractor'])
         if is_rpc:
@@ -338,13 +364,10 @@ def run(scn_wrap, docs_out):
     spec = build_spec()
     path = '/v1' if scn['prefix'] == 'none' else '/rpc'
     ev = []
-    order = []      # registration order = scenario order
-    counters = {'': 0, '/api': 0}
-    for m in scn['methods']:
-        k = '' if m['ep'] == 'root' else '/api'
-        order.append((k, methods_map[k][counters[k]]))
-        counters[k] += 1
     for g in range(3):
+        if g == 1 and deferred is not None:
+            build_method(deferred)
+            deferred = None
         if scn.get('plan') == 'shrink' and g == 1:
             k0, m0 = order[0]
             registry = {'': [], '/api': []}
